@@ -17,11 +17,11 @@ PID = "C08"
 RULE = ("states = (connected sub-tissue, k, resampled?) reached by adding one adjacent cell at a time from every single cell, "
         "de-duplicated on the cell set; non-trivial = has at least one junction; distinct classes = distinct "
         "(cells, interfaces, internal interfaces, k, ne) signatures")
-BOUND = {"quick": "all connected sub-tissues of an 8..9-cell Voronoi base and of square3x3/brick (fixpoint), k in {0,1,2,5}, ne in {2,6}",
-         "thorough": "all connected sub-tissues of 11- and 12-cell bases and the hand-built maps (fixpoint), k in {0,1,2,5,15}, ne in {2,6}"}
+BOUND = {"quick": "all connected sub-tissues of an 8..9-cell Voronoi base and of square3x3/brick (fixpoint), k in {0,1,2,5}, ne in {2,6}; 6 parser meshes as parsed and resampled",
+         "thorough": "all connected sub-tissues of 11- and 12-cell bases and the hand-built maps (fixpoint), k in {0,1,2,5,15}, ne in {2,6}; 13 parser meshes (generated dumps, WKT, tessellations, rasters, shipped dumps and skeleton) as parsed and resampled"}
 ASSUMPTIONS = ["cell membership of a vertex is taken from the cells' vertex cycles (reference), not from Vertex.ownCells",
                "sub-tissues are connected through shared interfaces; tissues whose cells touch only at a point are not generated"]
-REQUIRED_TAGS = {"all": ["has_internal", "has_external", "single_cell", "resampled", "lookup_checked"]}
+REQUIRED_TAGS = {"all": ["has_internal", "has_external", "single_cell", "resampled", "lookup_checked", "parser:se", "parser:wkt", "parser:tess", "parser:raster", "parser:se_file"]}
 
 
 def check_frame(vertices, edges, cells, frame):
@@ -193,17 +193,67 @@ class SubTissues:
         return viol, []
 
 
+class ParserMeshes:
+    """meshes coming out of every parser (Surface Evolver dump, WKT, tessellation, rasterised skeleton, shipped files), as parsed and
+    after resampling: the same decomposition / classification oracle"""
+    chunk = 2
+    bound = 1
+
+    def __init__(self, sources, nes):
+        self.name = "parser-meshes"
+        self.sources = sources
+        self.nes = nes
+
+    def initial(self):
+        return [{"s": i, "rs": None} for i in range(len(self.sources))]
+
+    def actions(self, d):
+        return [["resample", ne] for ne in self.nes] if d["rs"] is None else []
+
+    def step(self, d, a):
+        return {"s": d["s"], "rs": a[1]}
+
+    def evaluate(self, d):
+        import forsys.virtual_edges as ve
+        from checks import c09
+        src = self.sources[d["s"]]
+        try:
+            with fsutil.quiet():
+                v, e, c = c09.initial_mesh(src)
+                if d["rs"] is not None:
+                    v, e, c, _ = ve.generate_mesh(v, e, c, ne=d["rs"], replace_short_edges=False)
+                frame = T.frame_of(v, e, c)
+        except Exception as ex:
+            return {"viol": [{"what": "parsing / resampling / frame construction raised", "detail": {"source": src, "exc": fsutil.exc_str(ex)}}], "tags": [], "cls": "exc"}
+        viol, known, facts = check_frame(v, e, c, frame)
+        tags = ["parser:%s" % src[0]] + (["resampled"] if d["rs"] is not None else []) + (["has_internal"] if facts["n_int"] else []) + \
+               (["has_external"] if facts["n_ext"] else []) + (["lookup_checked"] if facts["looked"] else [])
+        return {"viol": viol, "known": known, "tags": tags, "cls": "%s/%s/%d/%d" % (src[0], d["rs"], facts["n_if"], facts["n_int"]),
+                "obs": {"n_int": facts["n_int"]}, "nontrivial": facts["junctions"] > 0}
+
+    def check_edge(self, d, a, d2, r, r2):
+        if r.get("obs") and r2.get("obs") and r["obs"]["n_int"] != r2["obs"]["n_int"]:
+            return [{"what": "resampling changed the number of internal interfaces of a parsed mesh", "detail": [r["obs"]["n_int"], r2["obs"]["n_int"]]}], []
+        return [], []
+
+
 def build(tier, seed):
     if tier == "quick":
         return [SubTissues("v5x4", [0, 1, 2, 5], [2, 6]),
                 SubTissues("v5x5", [0, 2], [3]),
                 SubTissues("square3x3", [0, 2], [2]),
                 SubTissues("lens", [1, 2, 4], [2, 3]),
-                SubTissues("v4x4p%d" % (seed + 1), [1, 3], [3])]
+                SubTissues("v4x4p%d" % (seed + 1), [1, 3], [3]),
+                ParserMeshes([["se", "v5x4", None, 2], ["se", "v5x5", None, 0], ["wkt", "v5x4", None, 1], ["tess", 5, 4, seed + 1, 40.0],
+                              ["raster", [5, 4, 15, 0, 40], True], ["se_file", "/repo/tests/data/furrow_gauss_velocity/stage0.dmp"]], [3, 6])]
     return [SubTissues("v5x5", [0, 1, 2, 5, 15], [2, 6]),
             SubTissues("v6x5", [0, 2, 5], [2, 6]),
             SubTissues("brick4x3", [0, 1, 2], [2]),
             SubTissues("square3x3", [0, 1, 2, 5], [2, 6]),
             SubTissues("hex3x3", [0, 1, 3], [2, 6]),
             SubTissues("lens", [1, 2, 3, 4, 7], [2, 3, 6]),
-            SubTissues("v5x4p%d" % (seed + 1), [0, 1, 2, 5], [2, 6])]
+            SubTissues("v5x4p%d" % (seed + 1), [0, 1, 2, 5], [2, 6]),
+            ParserMeshes([["se", "v5x4", None, 2], ["se", "v5x5", None, 0], ["se", "v6x5", None, 5], ["wkt", "v5x4", None, 1], ["wkt", "v5x5", None, 3],
+                          ["tess", 5, 4, seed + 1, 40.0], ["tess", 7, 6, seed + 2, 1000.0], ["raster", [5, 4, 15, 0, 40], True], ["raster", [6, 5, 15, 1, 44], True],
+                          ["se_file", "/repo/tests/data/furrow_gauss_velocity/stage0.dmp"], ["se_file", "/repo/tests/data/12_12/step_20.dmp"],
+                          ["se_file", "/repo/tests/data/initial_furrow.dmp"], ["skeleton", "/repo/tests/data/test_nonzero.tif"]], [2, 3, 6, 12])]
